@@ -71,6 +71,8 @@ def refined(ms, keys=None, mask=None):
 
 
 def children(c, mask=None):
+    if c.atomic is not None and any(c.atomic):
+        mask = [(True if mask is None else bool(m)) and not a for m, a in zip(mask or [True] * len(c.kind), c.atomic)]
     if mask is None or all(mask):
         return c.children()
     # subdivide only the masked factors: treat the others as un-subdivided by using a single "child" = the factor itself
@@ -175,9 +177,31 @@ class FaceTable:
         self.overlap_same = 0.     # same-orientation overlaps (cells overlapping): must stay 0
         covered = [0.] * len(self.facets)
 
-        def meet(i, j, vj):
+        fsets = [frozenset(f[4]) for f in self.facets]
+        fmeas = [G.facet_measure(f[3], f[4]) for f in self.facets]
+        self._fmeas = fmeas
+
+        def bbox(vs):
+            d = len(vs[0])
+            return [(min(float(v[i]) for v in vs), max(float(v[i]) for v in vs)) for i in range(d)]
+        boxes = [bbox(f[4]) for f in self.facets]
+
+        def meet(i, j, vj, shifted=False):
             fi, fj = self.facets[i], self.facets[j]
-            m = G.facet_overlap(fi[1][0], fi[4], vj)
+            bj = bbox(vj) if shifted else boxes[j]
+            npos = 0
+            for (lo1, hi1), (lo2, hi2) in zip(boxes[i], bj):
+                e = min(hi1, hi2) - max(lo1, lo2)
+                if e < -1e-12:
+                    return
+                if e > 1e-12:
+                    npos += 1
+            if npos < len(bj) - 1:
+                return
+            if fsets[i] == (frozenset(vj) if shifted else fsets[j]):
+                m = fmeas[i]
+            else:
+                m = G.facet_overlap(fi[1][0], fi[4], vj)
             if m <= 0:
                 return
             if fi[2] == fj[2]:
@@ -202,12 +226,12 @@ class FaceTable:
                 vj = [G.vadd(v, p) for v in verts]
                 for i in planes[npk]:
                     if i != j:
-                        meet(i, j, vj)
+                        meet(i, j, vj, True)
         self.exposed = []
         self.nflux = [0.] * (items[0][1].d if items else 0)
         self.total_exposed = 0.
         for idx, (cid, pk, o, n, verts) in enumerate(self.facets):
-            m = G.facet_measure(n, verts)
+            m = fmeas[idx]
             e = m - covered[idx]
             self.exposed.append(e)
             if e > 1e-12:
